@@ -252,11 +252,79 @@ impl Span {
     }
 }
 
-#[derive(Debug, Clone, PartialEq)]
+#[derive(Debug)]
 pub(crate) enum SpanInfo {
     Prim(Span),
     Cons(Span, Box<[SpanInfo; 2]>),
     Vec(Span, Vec<SpanInfo>),
+}
+
+// `Clone`, `PartialEq` and `Drop` walk the chain of `Cons` entries (one per
+// list element) in a loop; the derived implementations and the drop glue
+// recurse once per element and overflow the stack on long lists.
+impl Clone for SpanInfo {
+    fn clone(&self) -> Self {
+        match self {
+            SpanInfo::Prim(span) => SpanInfo::Prim(*span),
+            SpanInfo::Vec(span, infos) => SpanInfo::Vec(*span, infos.clone()),
+            SpanInfo::Cons(span, pair) => {
+                let mut head = SpanInfo::Cons(
+                    *span,
+                    Box::new([pair[0].clone(), SpanInfo::Prim(Span::empty())]),
+                );
+                let mut tail = &mut head;
+                let mut cursor = &pair[1];
+                loop {
+                    let slot = &mut tail.cons_mut().unwrap()[1];
+                    match cursor {
+                        SpanInfo::Cons(span, next) => {
+                            *slot = SpanInfo::Cons(
+                                *span,
+                                Box::new([next[0].clone(), SpanInfo::Prim(Span::empty())]),
+                            );
+                            tail = slot;
+                            cursor = &next[1];
+                        }
+                        other => {
+                            *slot = other.clone();
+                            return head;
+                        }
+                    }
+                }
+            }
+        }
+    }
+}
+
+impl PartialEq for SpanInfo {
+    fn eq(&self, other: &SpanInfo) -> bool {
+        let (mut a, mut b) = (self, other);
+        loop {
+            match (a, b) {
+                (SpanInfo::Cons(sa, pa), SpanInfo::Cons(sb, pb)) => {
+                    if sa != sb || pa[0] != pb[0] {
+                        return false;
+                    }
+                    a = &pa[1];
+                    b = &pb[1];
+                }
+                (SpanInfo::Prim(sa), SpanInfo::Prim(sb)) => return sa == sb,
+                (SpanInfo::Vec(sa, va), SpanInfo::Vec(sb, vb)) => return sa == sb && va == vb,
+                _ => return false,
+            }
+        }
+    }
+}
+
+impl Drop for SpanInfo {
+    fn drop(&mut self) {
+        if let SpanInfo::Cons(_, pair) = self {
+            let mut next = std::mem::replace(&mut pair[1], SpanInfo::Prim(Span::empty()));
+            while let SpanInfo::Cons(_, pair) = &mut next {
+                next = std::mem::replace(&mut pair[1], SpanInfo::Prim(Span::empty()));
+            }
+        }
+    }
 }
 
 impl SpanInfo {
